@@ -159,6 +159,17 @@ func c07Build(backend, scenario string, idx []int, place []string, variant int, 
 	return c
 }
 
+// c07GetFault: the API server rejects (403) the GET of the idx-th new resource during the
+// operation under test - the ownership look-up of that resource fails (seeded defect C07-3:
+// a Forbidden look-up treated like "does not exist")
+func c07GetFault(c c07Case, idx []int, i int) c07Case {
+	p := c07Pool[idx[i%len(idx)]%len(c07Pool)]
+	op := c.H.Steps[c.Test].Op
+	op.KFault = &eng.KFault{Verb: "get", Key: p.Kind + "/" + p.Name}
+	c.Scenario += "+getfault"
+	return c
+}
+
 var c07Scenarios = []string{"install", "upgrade-add", "replace", "rollback-recreate", "upgrade-add-twin"}
 
 func c07Gen(r *rand.Rand) c07Case {
@@ -185,7 +196,11 @@ func c07Gen(r *rand.Rand) c07Case {
 	if sc == "upgrade-add" && r.Intn(3) == 0 {
 		fl.MaxHistory = 1 + r.Intn(2)
 	}
-	return c07Build([]string{"secret", "memory", "configmap"}[r.Intn(3)], sc, idx, place, 1+r.Intn(6), r.Intn(2) == 0, fl, eng.GenHooks(r, 2))
+	c := c07Build([]string{"secret", "memory", "configmap"}[r.Intn(3)], sc, idx, place, 1+r.Intn(6), r.Intn(2) == 0, fl, eng.GenHooks(r, 2))
+	if sc != "rollback-recreate" && r.Intn(100) < 15 {
+		c = c07GetFault(c, idx, r.Intn(n))
+	}
+	return c
 }
 
 func (*c07) Corpus() []any {
@@ -196,6 +211,19 @@ func (*c07) Corpus() []any {
 			out = append(out, c07Build("secret", sc, []int{0, 2}, []string{p, "absent"}, 1+i, false, eng.Flags{}, nil))
 		}
 		out = append(out, c07Build("memory", sc, []int{0, 3}, []string{"foreign", "other-namespace"}, 3, true, eng.Flags{}, nil))
+	}
+	// the ownership look-up of the pre-existing object is rejected: every placement x
+	// {install, install --atomic, upgrade adding it, same-name upgrade} x take-ownership off/on
+	for i, p := range c07Placements {
+		for _, take := range []bool{false, true} {
+			idx := []int{0, 2}
+			pl := []string{p, "absent"}
+			out = append(out, c07GetFault(c07Build("secret", "install", idx, pl, 1+i, take, eng.Flags{}, nil), idx, 0))
+			out = append(out, c07GetFault(c07Build("secret", "install", idx, pl, 1+i, take, eng.Flags{Atomic: true}, nil), idx, 0))
+			out = append(out, c07GetFault(c07Build("secret", "upgrade-add", idx, pl, 1+i, take, eng.Flags{}, nil), idx, 0))
+			out = append(out, c07GetFault(c07Build("secret", "upgrade-add", idx, pl, 1+i, take, eng.Flags{Atomic: true, Cleanup: true}, nil), idx, 0))
+			out = append(out, c07GetFault(c07Build("secret", "upgrade-add-twin", idx, pl, 1+i, take, eng.Flags{}, nil), idx, 0))
+		}
 	}
 	return out
 }
